@@ -125,7 +125,15 @@ func (m MapSchema[K, V]) Unserialize(data any) (any, error) {
 		if err != nil {
 			return nil, ConstraintErrorAddPathSegment(err, fmt.Sprintf("[%v]", k.Interface()))
 		}
-		result.SetMapIndex(reflect.ValueOf(unserializedKey), reflect.ValueOf(unserializedValue))
+		resultKey := reflect.ValueOf(unserializedKey)
+		if result.MapIndex(resultKey).IsValid() {
+			// Two raw keys (for example 1 and "1") denote the same key; keeping either would depend on map order.
+			return nil, &ConstraintError{
+				Message: fmt.Sprintf("Duplicate key '%v' after conversion to the key type", unserializedKey),
+				Path:    []string{fmt.Sprintf("{%v}", k.Interface())},
+			}
+		}
+		result.SetMapIndex(resultKey, reflect.ValueOf(unserializedValue))
 	}
 	return result.Interface(), nil
 }
